@@ -101,7 +101,8 @@ def _job(vec):
         if field["t"] == "Integer":
             lo, hi = number(field["lo"]), number(field["hi"])
             if not (holds(vec["dialect"], column, lo) and holds(vec["dialect"], column, hi)):
-                if vec["dialect"] == "tsql" and column["type"] == "tinyint" and lo < 0 and max(-(lo + 1), abs(hi)) <= 255:
+                adjusted = [v if v >= 0 else -(v + 1) for v in (lo, hi)]
+                if vec["dialect"] == "tsql" and column["type"] == "tinyint" and lo < 0 and max(adjusted) <= 255:
                     signature = "tsql-tinyint-negative"
                 problems.append("%s: cannot store the range %d...%d" % (where, lo, hi))
         elif field["t"] == "Decimal":
